@@ -1740,7 +1740,7 @@ def oracle(ctx, volume=1):
     ctx.partial += [
         {"theorem": "gen_reuse_refines_fresh / fast_reuse_refines_fresh",
          "missing": "hypothesis Handled: a weighting mode without a branch in _set_weights_by_mode keeps the earlier weights (unhandled_mode_keeps_weights, witness reuse_refines_fresh_unhandled_fails)"},
-        {"theorem": "algo_reuse_refines_fresh_partial", "missing": "histories in which the requested projection changes: false on the tree (D10)"},
+        {"theorem": "algo_reuse_eq_fresh_iff", "missing": "nothing (exact characterisation); the property itself is false on the tree for histories in which the requested projection changes (D10, open)"},
     ]
 
 
